@@ -352,7 +352,8 @@ class World:
     def _out_paths(self, cwd: Path, mpath: Path, outname, suffix: str, pre: dict, literal: bool = False):
         """Admissible output locations (relative to proj) and whether failure is admissible."""
         if outname is None:
-            return [self._rel(mpath.with_suffix(suffix))], False
+            p0 = self._rel(mpath.with_suffix(suffix))
+            return [p0], (p0 + "/") in pre
         out = Path(outname[4:]) if outname.startswith("ABS:") else Path(outname)
         out = (self.proj / out) if outname.startswith("ABS:") else (cwd / out)
         if literal:
@@ -362,7 +363,10 @@ class World:
             if out.suffix not in ("", suffix):
                 paths.append(self._rel(out))  # "-o out.txt": name kept or suffix replaced, both honour -o
         parent = self._rel(out.parent)
-        may_fail = not (parent == "." or (parent + "/") in pre)
+        # the output location itself may be unusable: its directory is missing, or a
+        # directory sits where the file should go (the "dir" state fault hit an earlier
+        # output) - failing without output is then admissible, as is replacing it
+        may_fail = not (parent == "." or (parent + "/") in pre) or any((p + "/") in pre for p in paths)
         return paths, may_fail
 
     def expectations(self, op: dict, pre: dict, fired: str | None) -> list:
